@@ -117,6 +117,16 @@ def _impl_worker(args):
     from . import impl
     try:
         return impl.run_guarded(flavor, case, timeout)
+    except impl.Hang:
+        # the repeating watchdog fired once more while run_guarded was unwinding: still a hang, not a crash
+        import signal
+        for _ in range(5):
+            try:
+                signal.setitimer(signal.ITIMER_REAL, 0)
+                break
+            except impl.Hang:
+                continue
+        return ("hang", None)
     except BaseException as e:  # never let a worker die silently
         return ("crash", f"HARNESS:{type(e).__name__}: {e}"[:300])
 
